@@ -156,6 +156,17 @@ func C14(t *testing.T, ch *choice.Source, opt harness.Options, env *Env) harness
 						for _, id := range m.RspTo {
 							mapReqs[id]++
 							mapSeq[id] = tracer.seq
+							// termination: no memory operation of the work-group may still be in flight
+							for _, info := range unit.InFlightScalarMemAccess {
+								if info.Wavefront != nil && info.Wavefront.WG != nil && info.Wavefront.WG.MapReq != nil && info.Wavefront.WG.MapReq.ID == id {
+									fail("R4", "work-group-completed-with-memory-access-in-flight/scalar", "completion of a work-group reported while a scalar load of one of its wavefronts (first work-item %d) is still in flight", info.Wavefront.FirstWiFlatID)
+								}
+							}
+							for _, info := range unit.InFlightVectorMemAccess {
+								if info.Wavefront != nil && info.Wavefront.WG != nil && info.Wavefront.WG.MapReq != nil && info.Wavefront.WG.MapReq.ID == id {
+									fail("R4", "work-group-completed-with-memory-access-in-flight/vector", "completion of a work-group reported while a vector memory access of one of its wavefronts (first work-item %d) is still in flight", info.Wavefront.FirstWiFlatID)
+								}
+							}
 						}
 					}
 				}
@@ -200,7 +211,7 @@ func C14(t *testing.T, ch *choice.Source, opt harness.Options, env *Env) harness
 				if wgSize > 1024 {
 					wgSize = 1024
 				}
-				late := (c.NumWG + c.NWf) % 3
+				late := (c.NumWG + c.NWf) % 4
 				co, l, err := kasm.WaitCount(wgSize, late)
 				if err != nil {
 					harness.Bug("kasm: %v", err)
@@ -223,7 +234,7 @@ func C14(t *testing.T, ch *choice.Source, opt harness.Options, env *Env) harness
 				d.MemCopyD2H(ctx, got, dOut)
 				for g := 0; g < total; g++ {
 					want := in[g]*5 + in[g+total] + k
-					if late > 0 {
+					if late == 1 || late == 2 {
 						want += uint32(total)
 					}
 					if got[g] != want {
